@@ -1,6 +1,6 @@
 (* C20 — Paged listing of origin-side transfers is complete and duplicate-free.
    Only property theorems, their assumptions and non-vacuity examples.          *)
-From Fnd Require Import Base.Prelude Model.Paging Proofs.PagingProofs.
+From Fnd Require Import Base.Prelude Model.Paging Proofs.PagingProofs Model.Paths Proofs.PathsProofs.
 From stdpp Require Import lexico.
 
 (* (1) for every ledger (strictly sorted by key, any content), every page size >= 1:
@@ -8,7 +8,7 @@ From stdpp Require Import lexico.
        exactly the entries in the transfer range, in key order, each exactly once *)
 Theorem C20_pages_partition : forall (V : Type) (l : list (list N * V)) (size : Z),
   StronglySorted key_lt l -> (1 <= size)%Z ->
-  all_pages (S (length l)) l size [] = Some (fr pfx (pfx ++ maxrune) l).
+  all_pages (S (length l)) l size [] = Some (fr pfx pfx_end l).
 Proof. exact @pages_partition. Qed.
 Print Assumptions C20_pages_partition.
 
@@ -19,13 +19,42 @@ Proof. exact @only_range. Qed.
 Theorem C20_listing_sorted : forall (V : Type) (l : list (list N * V)) lo hi,
   StronglySorted key_lt l -> StronglySorted key_lt (fr lo hi l).
 Proof. exact @listing_sorted. Qed.
-(* every record stored under prefix ++ id (id not starting with the last code point) is in the range *)
-Theorem C20_record_key_in_range : forall (id : list N) c r, id = c :: r -> (c < 244)%N ->
-  in_range pfx (pfx ++ maxrune) (pfx ++ id) = true.
+(* the listed range is exactly the keys that begin with the record prefix: every record key prefix ++ id, whatever the
+   id, lies in it ("every existing record"), and every key in it is such a key ("only such records") *)
+Theorem C20_record_key_in_range : forall (id : list N), in_range pfx pfx_end (pfx ++ id) = true.
 Proof. exact record_key_in_range. Qed.
+Theorem C20_listed_range_is_prefix : forall (k : list N), in_range pfx pfx_end k = true <-> exists id, k = pfx ++ id.
+Proof. exact listed_range_is_prefix. Qed.
+(* F22 (repaired): the range that ended at prefix + U+10FFFF did not have this property *)
+Theorem C20_old_range_refuted :
+  exists id, in_range pfx (pfx ++ maxrune) (pfx ++ id) = false /\ in_range pfx pfx_end (pfx ++ id) = true.
+Proof. exact old_range_missed_a_record. Qed.
+(* which ids records are created under (cctransfer.IsValidID over path.Join, Model/Paths.v): exactly the non-empty ids
+   without a slash other than "." and ".."; their origin-side key is prefix ++ id - inside the listed range -, their
+   destination-side key is outside it, and different ids have different keys *)
+Theorem C20_valid_ids : forall id, is_valid_id id = plain id.
+Proof. exact valid_is_plain. Qed.
+Theorem C20_valid_id_keys : forall id, is_valid_id id = true ->
+  from_key id = pfx ++ id /\ in_range pfx pfx_end (from_key id) = true /\ in_range pfx pfx_end (to_key id) = false.
+Proof.
+  intros id H. split; [|split; [apply valid_from_key_listed, H|apply valid_to_key_not_listed, H]].
+  rewrite valid_is_plain in H. exact (from_key_plain id H).
+Qed.
+Theorem C20_valid_keys_injective : forall a b, is_valid_id a = true -> is_valid_id b = true ->
+  (from_key a = from_key b -> a = b) /\ (to_key a = to_key b -> a = b) /\ from_key a <> to_key b.
+Proof. exact valid_keys_injective. Qed.
+(* path.Clean is a projection (a key is its own canonical spelling) *)
+Theorem C20_clean_idempotent : forall s, clean_rooted (clean_rooted s) = clean_rooted s.
+Proof. exact clean_idempotent. Qed.
 Print Assumptions C20_only_range.
 Print Assumptions C20_listing_sorted.
 Print Assumptions C20_record_key_in_range.
+Print Assumptions C20_listed_range_is_prefix.
+Print Assumptions C20_old_range_refuted.
+Print Assumptions C20_valid_ids.
+Print Assumptions C20_valid_id_keys.
+Print Assumptions C20_valid_keys_injective.
+Print Assumptions C20_clean_idempotent.
 
 (* (3) a non-positive page size or a bookmark outside the transfer records is rejected *)
 Theorem C20_bad_size_rejected : forall (V : Type) (l : list (list N * V)) size bm,
@@ -44,6 +73,11 @@ Example C20_example :
             ([47; 116; 114; 97; 110; 115; 102; 101; 114; 47; 116; 111; 47; 97]%N, 9%N)] in
   all_pages 6 l 2 [] = Some [(k [97]%N, 1%N); (k [97; 98]%N, 2%N); (k [98]%N, 3%N)].
 Proof. vm_compute. reflexivity. Qed.
+(* ... and ids on both sides of validity *)
+Example C20_ids_example :
+  is_valid_id [97; 32]%N = true /\ is_valid_id [244; 143; 191; 191; 122]%N = true /\ is_valid_id [97; 47]%N = false /\
+  is_valid_id [46; 46]%N = false /\ from_key [46; 46; 47; 116; 111; 47; 120]%N = to_key [120]%N.
+Proof. vm_compute. repeat split; reflexivity. Qed.
 
 (* a page size beyond the number of ledger entries behaves like that number plus one (so the correspondence can evaluate
    the largest sizes the interface takes without counting up to them) *)
